@@ -134,3 +134,5 @@ static inline qsub sub_of_dom(qdom e) { return __CPROVER_uninterpreted_sub_of_do
 bool __CPROVER_uninterpreted_sub_isValid(qsub v);
 static inline bool sub_isValid(qsub v) { return __CPROVER_uninterpreted_sub_isValid(v); }
 static inline qoptsub sub_dptr(qsub v) { return v; }
+/* QXmppPubSubEventBase::serializeItems(writer) (pure virtual, implemented by QXmppPubSubEvent<T>): event stub */
+static inline void pubsub_serializeItems(const void *event, qxw *w) { (void)event; (void)w; ev(); }
